@@ -10,6 +10,9 @@ import (
 	"strconv"
 	"strings"
 	"time"
+
+	"github.com/janelia-flyem/dvid/datatype/common/labels"
+	"github.com/janelia-flyem/dvid/dvid"
 )
 
 func init() { register("C12", runC12) }
@@ -96,8 +99,27 @@ func c12IngestPaths(c *Ctx, h int) {
 		}
 		return resp.OK()
 	}
+	// POST blocks: a compressed block stream, with or without the indexing of the ingested labels
+	postBlocks := func(bx int, label uint64, q string) bool {
+		blk := labels.MakeSolidBlock(label, dvid.Point3d{32, 32, 32})
+		ser, _ := blk.MarshalBinary()
+		body := joinFrames([]frame{{int32(bx), 1, 0, gz(ser)}})
+		resp, _ := ch.HTTP("POST", fmt.Sprintf("node/%s/lm/blocks%s", uuid, q), body)
+		hist = append(hist, fmt.Sprintf("POST blocks%s block (%d,1,0) all label %d -> %d %s", q, bx, label, resp.Code, trunc(string(resp.Body))))
+		ch.AskT("SETTLE "+uuid+" lm", 20*time.Second)
+		if resp.OK() {
+			note(label)
+		}
+		return resp.OK()
+	}
 	nblk := 0
 	for round := 0; round < 4; round++ {
+		q := []string{"?noindexing=true", "", "?noindexing=true&downres=true", "?downres=true"}[(round+h)%4]
+		if postBlocks(nblk, present+20+uint64(r.Intn(2000)), q) {
+			if !alloc("blocks" + q + " ingest") {
+				return
+			}
+		}
 		a := present + 100 + uint64(r.Intn(1000))
 		if !writeBlock(nblk, a) || !alloc("raw write") {
 			return
